@@ -4,6 +4,7 @@ import Driver.C04
 import Driver.C17
 import Driver.C14
 import Driver.Chan
+import Driver.C07
 /-! nvdriver: line protocol. Each input line `<PROP> <tokens…>` is answered by exactly one line:
     `ok[ …]` | `diff …` (model and implementation disagree) | `specviol …` (the implementation's
     own answer violates the property predicate) | `bad-op`. -/
@@ -13,6 +14,7 @@ structure DS where
   c03 : Driver.C03.S := {}
   c17 : Driver.C17.S := {}
   chan : Driver.Chan.S := {}
+  c07 : Driver.C07.S := {}
 
 def dispatch (d : DS) (line : String) : DS × String :=
   match (line.trimAscii.toString.splitOn " ").filter (· ≠ "") with
@@ -26,6 +28,10 @@ def dispatch (d : DS) (line : String) : DS × String :=
   | "C10" :: rest => let (s, o) := Driver.Chan.handle "C10" d.chan rest; ({ d with chan := s }, o)
   | "C11" :: rest => let (s, o) := Driver.Chan.handle "C11" d.chan rest; ({ d with chan := s }, o)
   | "C18" :: rest => let (s, o) := Driver.Chan.handle "C18" d.chan rest; ({ d with chan := s }, o)
+  | "C07" :: rest =>
+    match rest with
+    | "new" :: _ | "hdl" :: _ | "add" :: _ | "invoke" :: _ => let (s, o) := Driver.C07.handle d.c07 rest; ({ d with c07 := s }, o)
+    | _ => let (s, o) := Driver.Chan.handle "C07" d.chan rest; ({ d with chan := s }, o)
   | "C14" :: rest => (d, Driver.C14.handle rest)
   | "C04" :: rest => (d, Driver.C04.handle rest)
   | "C08" :: rest => (d, Driver.C04.handle rest)
